@@ -18,46 +18,68 @@
 (* property itself only requires that a dropped announcement leaves cache AND  *)
 (* stream untouched.  AssignInvalid is left open (two allowed outcomes).       *)
 (* Time is integer ticks; values and errors are interned ids.                  *)
+(* Widened (coverage round): two modules (Mod2 = parameters of the second one, *)
+(* scopes "mod"/"mod2"), unexported parameters (hidden: cached, never sent),   *)
+(* Deactivate / Drop (ident, disconnect) shrinking the subscription table,     *)
+(* announcements with an explicit timestamp (AnnounceAt), nested reads (one    *)
+(* driver call announcing two parameters, ReadNested) and the operations that  *)
+(* must leave cache and stream untouched (Untouched: read returning Done, read *)
+(* without a driver method, refused / failing / Done writes, constant reads).  *)
 EXTENDS Naturals, Sequences, FiniteSets, TLC
 
 CONSTANTS Params,       \* parameter names
+          Mod2,         \* the parameters that live in the second module (the others in the first)
           Vals,         \* abstract (validated) values
           Errs,         \* errors a driver may raise / a module may announce
           Invs,         \* invalid values (each gives its own validation error)
-          Conns,        \* connections
+          Conns,        \* connections (an internal parameter callback is a connection with parameter scopes)
           OmitChoices,  \* suppression windows explored (0 = always, Never = never)
           NoDefault,    \* parameters that start uninitialised (error state, no stamp)
-          InitStamps,   \* stamps a start value may carry: 0 (default=, never announced) or Now0 (value=)
+          InitStamps,   \* stamps a start value may carry: 0 (default=, never announced) or Now0 (value=, constant=)
           InitScopeSets, \* possible initial subscription sets of a connection (subsets of Scopes)
-          ActScopes,    \* scopes used by Activate in the bounded models (subset of Scopes)
+          HiddenChoices, \* possible sets of unexported parameters
+          ActScopes,    \* scopes used by Activate / Deactivate in the bounded models (subset of Scopes)
           MaxNow        \* time bound (state constraint of the bounded models)
 
 Ok == "ok"
 InitErr == "init"                 \* "parameter not initialized"
-AllErrs == Errs \cup Invs \cup {InitErr}
 Never == 999999999
 Now0 == 1
-Scopes == {"all", "mod"} \cup Params   \* activate / activate m / activate m:p
+Scopes == {"all", "mod", "mod2"} \cup Params   \* activate / activate m / activate n / activate m:p
+
+(* an error raised inside a nested read reaches the outer parameter with a context prefix in its *)
+(* text ("in m.read_p: ..."): same error (class, arguments) - it compares equal - other rendering. *)
+(* Errors that are not SECoP errors are re-wrapped per parameter and carry no context.           *)
+Nest(e) == CASE e = "e1" -> "n1" [] e = "e2" -> "n2" [] e = "e4" -> "n4" [] OTHER -> e
+Base(e) == CASE e = "n1" -> "e1" [] e = "n2" -> "e2" [] e = "n4" -> "e4" [] OTHER -> e
+AllErrs == Errs \cup {Nest(e) : e \in Errs} \cup Invs \cup {InitErr}
 
 VARIABLES cache,   \* [Params -> [val, err, ts]]
           omit,    \* [Params -> Nat] suppression window per parameter (fixed after Init)
+          hidden,  \* unexported parameters (fixed after Init)
           now,     \* clock
           sub,     \* [Conns -> SUBSET Scopes]
           seen,    \* [Conns -> [Params -> view]]: the stream of c replayed (its fold)
           out      \* [Conns -> [Params -> Seq(view)]]: messages delivered by the last step
 
-vars == <<cache, omit, now, sub, seen, out>>
+vars == <<cache, omit, hidden, now, sub, seen, out>>
 
 (* what a message carries / what a client holds for one parameter *)
 View(e) == IF e.err # Ok THEN <<"e", e.err, e.ts>> ELSE <<"v", e.val, e.ts>>
 Nothing == <<"-", "-", 0>>
-(* the cache entry as compared with the implementation: the value is unspecified while in error state *)
-CV(e) == <<IF e.err # Ok THEN "-" ELSE e.val, e.err, e.ts>>
-Listens(s, p) == "all" \in s \/ "mod" \in s \/ p \in s
-Covered(sc) == IF sc \in {"all", "mod"} THEN Params ELSE {sc}
+(* the cache entry as compared with the implementation's fields: the value is unspecified while in *)
+(* error state, the error is identified by class and arguments                                     *)
+CV(e) == <<IF e.err # Ok THEN "-" ELSE e.val, Base(e.err), e.ts>>
+InScope(sc, p) == \/ sc = "all"
+                  \/ sc = "mod" /\ p \notin Mod2
+                  \/ sc = "mod2" /\ p \in Mod2
+                  \/ sc = p
+Listens(s, p) == p \notin hidden /\ \E sc \in s : InScope(sc, p)
+Covered(sc) == {p \in Params \ hidden : InScope(sc, p)}
 NoOut == [c \in Conns |-> [p \in Params |-> <<>>]]
 
 Init == /\ omit \in [Params -> OmitChoices]
+        /\ hidden \in HiddenChoices
         /\ \E v \in Vals, s \in InitStamps :     \* the start value is some catalogue value
              cache = [p \in Params |-> IF p \in NoDefault
                                        THEN [val |-> v, err |-> InitErr, ts |-> 0]
@@ -69,50 +91,89 @@ Init == /\ omit \in [Params -> OmitChoices]
 
 (* ---- the funnel ---- *)
 Suppressed(e, om, tm, v, er) ==
-    IF er # Ok THEN er = e.err                                   \* repeated identical error
+    IF er # Ok THEN Base(er) = Base(e.err)                       \* repeated identical error
                ELSE e.err = Ok /\ e.val = v /\ tm < e.ts + om    \* unchanged within the window
 NewEntry(e, tm, v, er) ==
     IF er # Ok THEN [val |-> e.val, err |-> er, ts |-> tm]
                ELSE [val |-> v, err |-> Ok, ts |-> tm]
 
+(* one driver call may announce several parameters (nested reads); every parameter goes through *)
+(* the funnel on its own.  vf / ef give value and error per parameter.                          *)
+AnnounceMany(S, vf(_), ef(_), tm) ==
+    LET go(p) == p \in S /\ ~Suppressed(cache[p], omit[p], tm, vf(p), ef(p))
+        ne(p) == NewEntry(cache[p], tm, vf(p), ef(p))
+    IN /\ cache' = [p \in Params |-> IF go(p) THEN ne(p) ELSE cache[p]]
+       /\ seen' = [c \in Conns |-> [p \in Params |->
+                      IF go(p) /\ Listens(sub[c], p) THEN View(ne(p)) ELSE seen[c][p]]]
+       /\ out' = [c \in Conns |-> [p \in Params |->
+                      IF go(p) /\ Listens(sub[c], p) THEN <<View(ne(p))>> ELSE <<>>]]
+
 Announce(p, v, er, tm) ==
-    IF Suppressed(cache[p], omit[p], tm, v, er)
-    THEN /\ UNCHANGED <<cache, seen>>
-         /\ out' = NoOut
-    ELSE LET ne == NewEntry(cache[p], tm, v, er) IN
-         /\ cache' = [cache EXCEPT ![p] = ne]
-         /\ seen' = [c \in Conns |-> IF Listens(sub[c], p) THEN [seen[c] EXCEPT ![p] = View(ne)] ELSE seen[c]]
-         /\ out' = [c \in Conns |-> [q \in Params |->
-                       IF q = p /\ Listens(sub[c], p) THEN <<View(ne)>> ELSE <<>>]]
+    LET vf(q) == v
+        ef(q) == er
+    IN AnnounceMany({p}, vf, ef, tm)
 
 (* ---- actions; tm is the clock reading the operation sees ---- *)
-ReadOk(p, v, tm)      == Announce(p, v, Ok, tm) /\ UNCHANGED <<omit, sub>>
-ReadRaise(p, e, tm)   == e \in Errs /\ Announce(p, cache[p].val, e, tm) /\ UNCHANGED <<omit, sub>>
-ReadInvalid(p, i, tm) == i \in Invs /\ Announce(p, cache[p].val, i, tm) /\ UNCHANGED <<omit, sub>>
+ReadOk(p, v, tm)      == Announce(p, v, Ok, tm) /\ UNCHANGED <<omit, hidden, sub>>
+ReadRaise(p, e, tm)   == e \in Errs /\ Announce(p, cache[p].val, e, tm) /\ UNCHANGED <<omit, hidden, sub>>
+ReadInvalid(p, i, tm) == i \in Invs /\ Announce(p, cache[p].val, i, tm) /\ UNCHANGED <<omit, hidden, sub>>
 (* the driver is offered v and reports w as the value now in effect (w = v when it returns nothing) *)
-Write(p, v, w, tm)    == Announce(p, w, Ok, tm) /\ UNCHANGED <<omit, sub>>
-Assign(p, v, tm)      == Announce(p, v, Ok, tm) /\ UNCHANGED <<omit, sub>>
-AnnounceErr(p, e, tm) == e \in Errs /\ Announce(p, cache[p].val, e, tm) /\ UNCHANGED <<omit, sub>>
+Write(p, v, w, tm)    == Announce(p, w, Ok, tm) /\ UNCHANGED <<omit, hidden, sub>>
+Assign(p, v, tm)      == Announce(p, v, Ok, tm) /\ UNCHANGED <<omit, hidden, sub>>
+AnnounceErr(p, e, tm) == e \in Errs /\ Announce(p, cache[p].val, e, tm) /\ UNCHANGED <<omit, hidden, sub>>
 (* assigning a value the datatype rejects: the property is silent - the assignment may be refused *)
 (* (nothing changes) or the validation error becomes the cached state (and is then announced)   *)
 AssignInvalid(p, i, tm) == /\ i \in Invs
                            /\ \/ Announce(p, cache[p].val, i, tm)
                               \/ UNCHANGED <<cache, seen>> /\ out' = NoOut
-                           /\ UNCHANGED <<omit, sub>>
+                           /\ UNCHANGED <<omit, hidden, sub>>
+(* announceUpdate(p, value or error, timestamp = t): the given stamp takes the place of the clock *)
+AnnounceAt(p, x, t)   == /\ t > 0
+                         /\ IF x \in Vals THEN Announce(p, x, Ok, t) ELSE Announce(p, cache[p].val, x, t)
+                         /\ UNCHANGED <<omit, hidden, sub>>
+(* read_q's driver calls read_p: p is announced, then q - with the same value, or with the error *)
+(* raised by p's driver (which reaches q with its context)                                        *)
+ReadNested(p, q, x, tm) ==
+    LET vf(r) == IF x \in Vals THEN x ELSE cache[r].val
+        ef(r) == IF x \in Vals THEN Ok ELSE IF r = q THEN Nest(x) ELSE x
+    IN /\ p # q
+       /\ AnnounceMany({p, q}, vf, ef, tm)
+       /\ UNCHANGED <<omit, hidden, sub>>
+(* operations after which neither the cache nor any stream may differ: a read returning Done, a   *)
+(* read of a parameter without driver method, a write that is refused / fails / returns Done, the *)
+(* read of a constant                                                                              *)
+Untouched == out' = NoOut /\ UNCHANGED <<cache, omit, hidden, sub, seen>>
 
 Tick(n) == /\ now' = now + n
            /\ out' = NoOut
-           /\ UNCHANGED <<cache, omit, sub, seen>>
+           /\ UNCHANGED <<cache, omit, hidden, sub, seen>>
 
 (* activate [m[:p]]: subscription + snapshot of the covered parameters *)
 Activate(c, sc) ==
+    /\ sc \in Params => sc \notin hidden
     /\ sub' = [sub EXCEPT ![c] = @ \cup {sc}]
     /\ seen' = [seen EXCEPT ![c] = [p \in Params |-> IF p \in Covered(sc) THEN View(cache[p]) ELSE @[p]]]
     /\ out' = [d \in Conns |-> [p \in Params |->
                   IF d = c /\ p \in Covered(sc) THEN <<View(cache[p])>> ELSE <<>>]]
-    /\ UNCHANGED <<cache, omit>>
+    /\ UNCHANGED <<cache, omit, hidden>>
+(* deactivate: without specifier only the general subscription goes, "deactivate m" also removes *)
+(* the parameter subscriptions of m, "deactivate m:p" that one                                   *)
+Removed(sc) == CASE sc = "all"  -> {"all"}
+                 [] sc = "mod"  -> {"mod"} \cup (Params \ Mod2)
+                 [] sc = "mod2" -> {"mod2"} \cup Mod2
+                 [] OTHER       -> {sc}
+Deactivate(c, sc) ==
+    /\ sub' = [sub EXCEPT ![c] = @ \ Removed(sc)]
+    /\ out' = NoOut
+    /\ UNCHANGED <<cache, omit, hidden, seen>>
+(* identification request or disconnect: all subscriptions of c are gone *)
+Drop(c) ==
+    /\ sub' = [sub EXCEPT ![c] = {}]
+    /\ out' = NoOut
+    /\ UNCHANGED <<cache, omit, hidden, seen>>
 
-(* uniform operation records [a, p, x, y, n] (x: value / error / scope, y: reported value, n: ticks) *)
+(* uniform operation records [a, p, x, y, n] (x: value / error / scope, y: reported value or second *)
+(* parameter, n: ticks or explicit stamp)                                                           *)
 Do(op, tm) ==
     CASE op.a = "ReadOk"      -> ReadOk(op.p, op.x, tm)
       [] op.a = "ReadRaise"   -> ReadRaise(op.p, op.x, tm)
@@ -121,7 +182,12 @@ Do(op, tm) ==
       [] op.a = "Assign"      -> Assign(op.p, op.x, tm)
       [] op.a = "AnnounceErr" -> AnnounceErr(op.p, op.x, tm)
       [] op.a = "AssignInvalid" -> AssignInvalid(op.p, op.x, tm)
+      [] op.a = "AnnounceAt"  -> AnnounceAt(op.p, op.x, op.n)
+      [] op.a = "ReadNested"  -> ReadNested(op.p, op.y, op.x, tm)
+      [] op.a = "Untouched"   -> Untouched
       [] op.a = "Activate"    -> Activate(op.p, op.x)
+      [] op.a = "Deactivate"  -> Deactivate(op.p, op.x)
+      [] op.a = "Drop"        -> Drop(op.p)
       [] OTHER                -> FALSE
 
 OpsOf(p) ==
@@ -131,9 +197,16 @@ OpsOf(p) ==
     {[a |-> "Write", p |-> p, x |-> v, y |-> w, n |-> 0] : v \in Vals, w \in Vals} \cup
     {[a |-> "Assign", p |-> p, x |-> v, y |-> "-", n |-> 0] : v \in Vals} \cup
     {[a |-> "AnnounceErr", p |-> p, x |-> e, y |-> "-", n |-> 0] : e \in Errs} \cup
-    {[a |-> "AssignInvalid", p |-> p, x |-> i, y |-> "-", n |-> 0] : i \in Invs}
+    {[a |-> "AssignInvalid", p |-> p, x |-> i, y |-> "-", n |-> 0] : i \in Invs} \cup
+    {[a |-> "Untouched", p |-> p, x |-> "-", y |-> "-", n |-> 0]}
+(* explicit stamps: one tick in the past, one in the future *)
+AtOps(p) == {[a |-> "AnnounceAt", p |-> p, x |-> x, y |-> "-", n |-> t] :
+                 x \in Vals \cup Errs, t \in (IF now > 1 THEN {now - 1} ELSE {}) \cup {now + 1}}
+NestOps(p) == {[a |-> "ReadNested", p |-> p, x |-> x, y |-> q, n |-> 0] : x \in Vals \cup Errs, q \in Params \ {p}}
 ActOps == {[a |-> "Activate", p |-> c, x |-> sc, y |-> "-", n |-> 0] : c \in Conns, sc \in ActScopes}
-AllOps == UNION {OpsOf(p) : p \in Params} \cup ActOps
+DeactOps == {[a |-> "Deactivate", p |-> c, x |-> sc, y |-> "-", n |-> 0] : c \in Conns, sc \in ActScopes \cup {"all"}} \cup
+            {[a |-> "Drop", p |-> c, x |-> "-", y |-> "-", n |-> 0] : c \in Conns}
+AllOps == UNION {OpsOf(p) \cup AtOps(p) \cup NestOps(p) : p \in Params} \cup ActOps \cup DeactOps
 
 Next == \/ \E op \in AllOps : Do(op, now) /\ now' = now
         \/ \E n \in 1 .. 2 : Tick(n)
@@ -141,8 +214,9 @@ Next == \/ \E op \in AllOps : Do(op, now) /\ now' = now
 Spec == Init /\ [][Next]_vars
 
 (* Write / Assign / AnnounceErr are by definition the same funnel calls as ReadOk / ReadRaise: *)
-(* the quick design check explores one representative operation per distinct funnel call      *)
-RepOps == {op \in AllOps : op.a \in {"ReadOk", "ReadRaise", "ReadInvalid", "AssignInvalid", "Activate"}}
+(* the design checks explore one representative operation per distinct funnel call            *)
+RepOps == {op \in AllOps : op.a \in {"ReadOk", "ReadRaise", "ReadInvalid", "AssignInvalid", "AnnounceAt", "ReadNested",
+                                     "Activate", "Deactivate", "Drop"}}
 RepNext == \/ \E op \in RepOps : Do(op, now) /\ now' = now
            \/ \E n \in 1 .. 2 : Tick(n)
 RepSpec == Init /\ [][RepNext]_vars
@@ -153,13 +227,15 @@ TimeBound == now <= MaxNow
 TypeOK ==
     /\ cache \in [Params -> [val : Vals, err : AllErrs \cup {Ok}, ts : 0 .. MaxNow + 2]]
     /\ omit \in [Params -> OmitChoices]
+    /\ hidden \in HiddenChoices
     /\ sub \in [Conns -> SUBSET Scopes]
 
 (* replaying what a subscribed connection received gives value-or-error and stamp of the cache *)
 StreamReconstructs ==
     \A c \in Conns, p \in Params : Listens(sub[c], p) => seen[c][p] = View(cache[p])
 
-(* per parameter: every change of the cache is delivered, once, in that order; nothing else is *)
+(* per parameter: every change of the cache is delivered, once, in that order; nothing else is; *)
+(* an unexported parameter is never sent                                                        *)
 Ordered == [][\A c \in Conns, p \in Params :
                  /\ out'[c][p] \in {<<>>, <<View(cache'[p])>>}
                  /\ (Listens(sub[c], p) /\ View(cache'[p]) # View(cache[p])) => out'[c][p] = <<View(cache'[p])>>
@@ -168,15 +244,20 @@ Ordered == [][\A c \in Conns, p \in Params :
 (* an announcement without error while the parameter is in error state is never suppressed ... *)
 RecoveryNeverSuppressed ==
     \A p \in Params, v \in Vals : cache[p].err # Ok => ~Suppressed(cache[p], omit[p], now, v, Ok)
-(* ... and a cleared error state is delivered to every listener with the value and the current stamp *)
+(* ... and a cleared error state is delivered to every listener with the value and its stamp *)
 RecoveryAnnounced == [][\A p \in Params : (cache[p].err # Ok /\ cache'[p].err = Ok) =>
-                          /\ cache'[p].ts = now
-                          /\ \A c \in Conns : Listens(sub[c], p) => out'[c][p] = <<<<"v", cache'[p].val, now>>>>]_vars
+                          \A c \in Conns : Listens(sub[c], p) =>
+                               out'[c][p] = <<<<"v", cache'[p].val, cache'[p].ts>>>>]_vars
 
-(* one operation touches one parameter; stamps never go back *)
-Isolation == [][/\ Cardinality({p \in Params : cache'[p] # cache[p]}) <= 1
-                /\ \A c \in Conns, p \in Params :
-                      (out'[c][p] # <<>> /\ cache' # cache) => cache'[p] # cache[p]]_vars
-StampMonotone == [][\A p \in Params : cache'[p].ts >= cache[p].ts /\ cache'[p].ts <= now]_vars
+(* one operation touches one parameter - or two with the same outcome (nested read) - and only *)
+(* the touched parameters are sent                                                             *)
+Isolation == [][LET ch == {p \in Params : cache'[p] # cache[p]} IN
+                /\ Cardinality(ch) <= 2
+                /\ \A p, q \in ch : Base(cache'[p].err) = Base(cache'[q].err)
+                /\ cache' # cache => Cardinality({p \in Params : \E c \in Conns : out'[c][p] # <<>>}) <= 2]_vars
+(* subscriptions only change by requests of the connection itself; the settings never change *)
+Frame == [][/\ omit' = omit /\ hidden' = hidden
+            /\ Cardinality({c \in Conns : sub'[c] # sub[c]}) <= 1
+            /\ sub' # sub => cache' = cache]_vars
 
 =============================================================================
